@@ -3,5 +3,9 @@ CONSTANTS W = 0
           WS = 0
           Deep = {}
           OptSet = {"default"}
+          Reps = 1
+          RepW = 0
+          Which = "all"
+          MutualFull = FALSE
 INVARIANTS EmitPoints
 CHECK_DEADLOCK FALSE
